@@ -178,6 +178,44 @@ def run(ctx):
     scenario("patch-via-match_incoming", lambda I: s_patch(I, "match_incoming"), "patch/exact")
     scenario("patch-via-save", lambda I: s_patch(I, "save"), "patch/exact")
 
+    def s_autocreate_with_patch(I):
+        # the patch handed to the very call that creates the record is applied to the new record
+        s = fresh(I)
+        x = AInt([I.atom_form(("x", i)) for i in range(24)])
+        y = AInt([I.atom_form(("y", i)) for i in range(8)])
+        r = I.call(mi, [s], {"address": A, "auto_create": True, "patch": {"dmr_id": x, "custom_attr": y}})
+        again = I.call(mi, [s], {"address": A})
+        n = I.call(ln, [s], {})
+        ok = isinstance(r, AObj) and again is r and n == 1 and r.attrs.get("dmr_id") is x and r.attrs.get("__attrs", {}).get("custom_attr") is y
+        return ok, f"record created: {isinstance(r, AObj)}, found again: {again is r}, len {n}, built-in field patched: {isinstance(r, AObj) and r.attrs.get('dmr_id') is x}, " \
+                   f"dynamic attribute stored: {isinstance(r, AObj) and r.attrs.get('__attrs', {}).get('custom_attr') is y}", s
+    scenario("autocreate-with-patch", s_autocreate_with_patch, "patch/exact")
+
+    def s_patch_twice(I):
+        # the second patch of one dynamic attribute replaces the first value
+        s = fresh(I)
+        a = I.call(mi, [s], {"address": A, "auto_create": True})
+        y1 = AInt([I.atom_form(("y1", i)) for i in range(8)])
+        y2 = AInt([I.atom_form(("y2", i)) for i in range(8)])
+        I.call(save, [s, a, {"custom_attr": y1}], {})
+        I.call(save, [s, a, {"custom_attr": y2}], {})
+        got = I.call(repo.find_method(a.cls, "attr"), [a, "custom_attr"], {})
+        return got is y2 and a.attrs.get("__attrs", {}).get("custom_attr") is y2, f"attr() after two patches of one dynamic key returns the {'second' if got is y2 else 'FIRST / another'} value", s
+    scenario("patch-dynamic-attribute-twice", s_patch_twice, "patch/exact")
+
+    def s_same_ip_other_port(I):
+        # a look-up is by the full (ip, port) address: another port of a known ip is an unseen address
+        s = fresh(I)
+        a = I.call(mi, [s], {"address": A, "auto_create": True})
+        other = (A[0], A[1] + 1)
+        r = I.call(mi, [s], {"address": other})
+        n1 = I.call(ln, [s], {})
+        c = I.call(mi, [s], {"address": other, "auto_create": True})
+        n2 = I.call(ln, [s], {})
+        return r is None and n1 == 1 and isinstance(c, AObj) and c is not a and n2 == 2, \
+            f"lookup of (known ip, other port) -> {'None' if r is None else 'a record'}; auto-create makes a second record: {isinstance(c, AObj) and c is not a}; len {n1} -> {n2}", s
+    scenario("same-ip-other-port", s_same_ip_other_port, "create/guarded")
+
     def s_patch_all_fields(I):
         s = fresh(I)
         a = I.call(mi, [s], {"address": A, "auto_create": True})
